@@ -3,19 +3,20 @@ EXTENDS SendBatch
 Servers == {"s1", "s2"}
 (* outcome sequences of one call across rounds: it is re-sent only after a retryable outcome; the last is final *)
 OutSeqs == { <<"ok", "ok", "ok">>, <<"fatal", "ok", "ok">>, <<"later", "ok", "ok">>, <<"later", "fatal", "ok">>, <<"nsr", "ok", "ok">>,
-             <<"dead", "ok", "ok">>, <<"nsr", "later", "ok">>, <<"later", "later", "ok">>, <<"dead", "nsr", "fatal">>, <<"nsr", "nsr", "ok">> }
+             <<"dead", "ok", "ok">>, <<"nsr", "later", "ok">>, <<"later", "later", "ok">>, <<"dead", "nsr", "fatal">>, <<"nsr", "nsr", "ok">>,
+             <<"stopped", "ok", "ok">>, <<"stopped", "later", "ok">> }
 Relocs == {[r \in 2..3 |-> "ok"]} \cup {[r \in 2..3 |-> IF r = k THEN v ELSE "ok"] : k \in 2..3, v \in {"tnf", "hang"}}
 Cancels == {[at |-> "never", round |-> 0, held |-> {}]}
            \cup {[at |-> "wait", round |-> r, held |-> h] : r \in 1..2, h \in (SUBSET Servers) \ {{}}}
            \cup {[at |-> "backoff", round |-> r, held |-> {}] : r \in 1..2}
            \cup {[at |-> "find", round |-> r, held |-> {}] : r \in 2..3}
-SentIn(s, c, r) == \A q \in 1..(r - 1) : s.out[c][q] \in {"later", "nsr", "dead"}
+SentIn(s, c, r) == \A q \in 1..(r - 1) : s.out[c][q] \in {"later", "nsr", "dead", "stopped"}
 Consistent(s) ==
   \* a dead connection fails every call sent over it in that round
   /\ \A c, d \in Calls : \A r \in 1..3 :
         (s.srv[c] = s.srv[d] /\ SentIn(s, c, r) /\ SentIn(s, d, r) /\ s.out[c][r] = "dead") => s.out[d][r] = "dead"
   \* a round in which re-location fails has a call that needs re-locating
-  /\ \A r \in 2..3 : s.reloc[r] # "ok" => \E c \in Calls : SentIn(s, c, r) /\ c \notin s.ownCtx /\ s.out[c][r - 1] \in {"nsr", "dead"}
+  /\ \A r \in 2..3 : s.reloc[r] # "ok" => \E c \in Calls : SentIn(s, c, r) /\ c \notin s.ownCtx /\ s.out[c][r - 1] \in {"nsr", "dead", "stopped"}
   \* a cancellation "while servers hold their answers" needs every held server to have a live call in that round,
   \* one "while re-locating" needs regions that do not come back
   /\ (s.cancel.at = "wait" => \A h \in s.cancel.held : \E c \in Calls : s.srv[c] = h /\ SentIn(s, c, s.cancel.round) /\ c \notin s.ownCtx)
